@@ -206,7 +206,7 @@ def run_one(cfg, tape, want_trace=False):
                              pid_of=lambda k=k: (k.me().pid if k.me() is not None else 0))
             mods = {}
             ctxs = {}
-            hist = History(base=phase * 1_000_000)
+            hist = History(base=(phase + 1) * 1_000_000)
             holds = []
 
             def on_death(pid, k=k, simos=simos, hist=hist):
